@@ -15,6 +15,13 @@ type OutputBufferConfig struct {
 
 // VerifyConfig verifies the configuration
 func (cfg OutputBufferConfig) VerifyConfig(schema base.LogSchema) error {
+	if cfg.BufferConfig.Value == nil {
+		return fmt.Errorf("outputBufferPair '%s': buffer is undefined", cfg.Name)
+	}
+	if cfg.OutputConfig.Value == nil {
+		return fmt.Errorf("outputBufferPair '%s': output is undefined", cfg.Name)
+	}
+
 	if err := cfg.BufferConfig.Value.VerifyConfig(); err != nil {
 		return fmt.Errorf("buffer config validation error: %w", err)
 	}
